@@ -1825,3 +1825,8 @@ fn replay(_opts: &Opts, d: &Value, acc: &mut Acc) {
         other => acc.inconclusive.push(format!("unknown C14 replay kind {:?}", other)),
     }
 }
+
+/// libFuzzer entry: one generated case
+pub fn fuzz_case(genome: &[u8], acc: &mut Acc) -> Vec<Failure> {
+    random_case(genome, acc)
+}
